@@ -350,6 +350,9 @@ func (c *clientHello) parseExtensions() error {
 			//                   Empty;
 			//           };
 			//        } ECHClientHello;
+			if c.echExt != nil {
+				return fmt.Errorf("%w: more than one encrypted_client_hello extension", ErrIllegalParameter)
+			}
 			c.echExt = &echExt{}
 
 			if !data.ReadUint8(&c.echExt.Type) { // type
